@@ -125,7 +125,7 @@ def _schema(m):
     return _schemas[key][1]
 
 
-def g_exclusive_tree(c, m):
+def g_exclusive_tree(c, m, cyclic=False):
     """One response key selected under two exclusive object types and their common interface, the
     sub-selections sharing a fragment: the structure where the rule's pair memo must keep the
     'mutually exclusive' flag apart.  Returns a tree or None when the model has no such shape."""
@@ -154,10 +154,29 @@ def g_exclusive_tree(c, m):
         return {"k": "field", "alias": "K", "n": f["name"], "args": [], "dirs": [], "sel": sel}
 
     a, b = impl[0], impl[1]
+    extra = []
+    if cyclic:
+        # a second fragment Z and a spread cycle through Y: the pair (Y, Z) is compared under exclusive parents
+        # and then again under overlapping ones while one of the two sits on a cycle
+        z = {"k": "frag", "desc": None, "n": "Z", "vars": [], "on": frag_on, "dirs": [],
+             "sel": s1 if frag_on == t else gen.g_selset(frag_on, ("K",), 1)}
+        extra.append(z)
+        kind = c.pick(3)
+        if kind == 0:
+            y["sel"].append(dict(spread))
+        elif kind == 1:
+            y["sel"].append({"k": "spread", "n": "Z", "args": None, "dirs": []})
+            z["sel"].append(dict(spread))
+        else:
+            z["sel"].append({"k": "spread", "n": "Z", "args": None, "dirs": []})
+        s1 = [{"k": "spread", "n": "Z", "args": None, "dirs": []}]
     parts = [{"k": "inline", "on": a, "dirs": [], "sel": [fld(s1)]},
              {"k": "inline", "on": b, "dirs": [], "sel": [fld([spread])]},
              {"k": "inline", "on": c.choose([i["name"], a, None]), "dirs": [], "sel": [fld([dict(spread)])]}]
-    parts = [parts[k] for k in g2._perm(3, c.ints(3))]
+    if cyclic:
+        parts.append({"k": "inline", "on": c.choose([i["name"], b, None]), "dirs": [],
+                      "sel": [fld([dict(spread), {"k": "spread", "n": "Z", "args": None, "dirs": []}])]})
+    parts = [parts[k] for k in g2._perm(len(parts), c.ints(len(parts)))]
     top = {"k": "frag", "desc": None, "n": "Top", "vars": [], "on": i["name"], "dirs": [], "sel": parts}
     op = {"k": "op", "short": True, "sel": [{"k": "field", "alias": None, "n": "__typename", "args": [],
                                              "dirs": [], "sel": None}]}
@@ -165,15 +184,17 @@ def g_exclusive_tree(c, m):
     if vars_used:
         op = {"k": "op", "short": False, "desc": None, "op": "query", "n": "Q", "vars": gen.vardefs(),
               "dirs": [], "sel": op["sel"]}
-    return {"k": "doc", "defs": [op, top, y] + gen.frags, "frag_args": False, "dir_on_dir": False}
+    return {"k": "doc", "defs": [op, top, y] + extra + gen.frags, "frag_args": False, "dir_on_dir": False}
 
 
 def g_case(c):
     m = g2.g_model(c)
     if c.chance(70):
-        t = g_exclusive_tree(c, m)
+        cyc = c.chance(90)
+        t = g_exclusive_tree(c, m, cyc)
         if t is not None:
-            return {"model": dict(m), "tree": t, "cyclic": False, "permute": False, "stratum": "exclusive"}
+            return {"model": dict(m), "tree": t, "cyclic": cyc, "permute": False,
+                    "stratum": "exclusive-cyclic" if cyc else "exclusive"}
     doc = g3.g_document(c, m, depth=3, operation="query", collide=c.choose([60, 120, 200]), n_ops=1)
     tree = doc["tree"]
     cyclic = False
